@@ -1,6 +1,7 @@
 package props
 
 import (
+	"bytes"
 	"fmt"
 	"strings"
 
@@ -86,6 +87,38 @@ func genC02(r *fw.Rng, tier string, emit func(fw.Case)) {
 		}
 		emitDec(emit, frames.Escape(frames.Plain(h, big, decl)))
 		emitDec(emit, frames.Escape(frames.Plain(h, big[:len(big)-1], decl)))
+	}
+	// (0b) an escape introducer followed by EVERY second byte other than 01 / 02, the checksum made consistent with
+	// whatever byte a lenient decoder might substitute for the pair (7d+x-1, x, 7d, 7e, nothing at all): such a frame is
+	// malformed whatever the checksum says
+	for x := 0; x < 256; x++ {
+		if x == 1 || x == 2 {
+			continue
+		}
+		h := frames.RandH(r)
+		pre, post := r.Bytes(r.Intn(4)), r.Bytes(r.Intn(4))
+		for k := range pre {
+			pre[k] &= 0x7b
+		}
+		for k := range post {
+			post[k] &= 0x7b
+		}
+		subs := [][]byte{{byte(0x7d + x - 1)}, {byte(x)}, {0x7d}, {0x7e}, {}, {0x7d, byte(x)}}
+		for _, sub := range subs {
+			body := append(append(append([]byte{}, pre...), sub...), post...)
+			plain := frames.Plain(h, body, -1) // header + body + checksum as the lenient decoder would see them
+			if bytes.IndexByte(plain, 0x7e) >= 0 || bytes.IndexByte(plain[:len(plain)-len(post)-1-len(sub)], 0x7d) >= 0 {
+				continue // keep the rest of the frame free of bytes that need escaping
+			}
+			cut := len(plain) - 1 - len(post) - len(sub)
+			wire := append([]byte{0x7e}, plain[:cut]...)
+			wire = append(wire, 0x7d, byte(x))
+			wire = append(wire, plain[cut+len(sub):]...)
+			if bytes.IndexByte(wire[cut+3:], 0x7d) >= 0 {
+				continue
+			}
+			emitDec(emit, append(wire, 0x7e))
+		}
 	}
 	// (1) valid frames + their corruptions
 	for i := 0; i < nValid; i++ {
